@@ -2,7 +2,8 @@
    Statement file.  A Gaussian is its (mean, covariance) pair (DESIGN section 7); "the law of
    A X + b" is (A m + b, A C A^T).  Generic field: holds for Qc (executable) and R. *)
 From Coq Require Import Arith ZArith List Bool Reals.
-From GPV Require Import Base.LinAlg Base.Exec Base.Expr Base.PySlice Models.C11_mtmvn Models.C10_mvn Proofs.C10_mvn Proofs.C10_kl.
+From GPV Require Import Base.LinAlg Base.Exec Base.Expr Base.PySlice Models.C11_mtmvn Models.C10_mvn Proofs.C10_mvn Proofs.C10_kl
+  Models.C10_broadcast Proofs.C10_broadcast.
 Import ListNotations.
 
 (* indexing = marginal: for ANY index function p into the event dimension (slices, index
@@ -158,3 +159,33 @@ Proof. vm_compute. reflexivity. Qed.
 Example ex_c10_kl_nonneg_hypothesis :
   (0 < @mmul RF 1 (fun _ _ => 2%R) (fun _ _ => 3%R) 0%nat 0%nat)%R.
 Proof. unfold mmul. cbn. Lra.lra. Qed.
+
+(* ------------------------------------------------------------------ broadcasting of batch shapes
+   (kl_divergence, log_prob, +, expand; shapes and indices reversed = aligned from the last dimension) *)
+
+(* every position b of the broadcast result reads an existing element of BOTH operands, for all shapes of all ranks
+   (in particular different ranks on the two sides and size-1 dimensions on both) *)
+Theorem c10_broadcast_reads_in_bounds :
+  forall s t f b, bshape_rev s t = Some f -> valid_idx f b ->
+    valid_idx s (bindex_rev s b) /\ valid_idx t (bindex_rev t b).
+Proof. exact bindex_rev_valid. Qed.
+Print Assumptions c10_broadcast_reads_in_bounds.
+
+Theorem c10_broadcast_shape_symmetric : forall s t, bshape_rev s t = bshape_rev t s.
+Proof. exact bshape_rev_comm. Qed.
+Print Assumptions c10_broadcast_shape_symmetric.
+
+Theorem c10_broadcast_rank : forall s t f, bshape_rev s t = Some f -> length f = Nat.max (length s) (length t).
+Proof. exact bshape_rev_length. Qed.
+Print Assumptions c10_broadcast_rank.
+
+(* equal batch shapes: nothing is expanded *)
+Theorem c10_broadcast_equal_shapes_identity :
+  forall s b, bshape_rev s s = Some s /\ (valid_idx s b -> bindex_rev s b = b).
+Proof. exact bcast_same. Qed.
+Print Assumptions c10_broadcast_equal_shapes_identity.
+
+Example ex_c10_broadcast_31_2 :
+  bshape [3; 1] [2] = Some [3; 2] /\ bindex [3; 1] [2; 1] = [2; 0] /\ bindex [2] [2; 1] = [1].
+Proof. exact ex_broadcast_31_2. Qed.
+Print Assumptions ex_c10_broadcast_31_2.
